@@ -634,8 +634,17 @@ func (l *IPFSLog) Join(otherLog iface.IPFSLog, size int) (iface.IPFSLog, error) 
 		entries := entry.NewOrderedMapFromEntries(tmp)
 		heads := entry.NewOrderedMapFromEntries(entry.FindHeads(entry.NewOrderedMapFromEntries(tmp)))
 
+		// the next index must only know the entries that were kept
+		next := entry.NewOrderedMap()
+		for _, e := range tmp {
+			for _, n := range e.GetNext() {
+				next.Set(n.String(), e)
+			}
+		}
+
 		l.Entries = entries
 		l.heads = heads
+		l.Next = next
 	}
 
 	// Find the latest clock from the heads
